@@ -44,6 +44,7 @@ type fakeRelay struct {
 	failDelOnce             bool          // the next DelCipherBox call fails
 	wsRecvDelay             time.Duration // the first WebSocket receive dial is answered this late
 	wsSendDials, wsSendOpen int           // WebSocket send sockets dialled / still open
+	wsRecvDials             int           // WebSocket receive sockets dialled
 }
 
 func (r *fakeRelay) setFailClose(v bool) {
